@@ -121,6 +121,22 @@ def parseNT (s : String) : Option NT :=
   | "i32" => some .i32 | "u32" => some .u32 | "f32" => some .f32 | "f64" => some .f64
   | _ => none
 
+/-- one element of an `adiff` / `hdiff` line: an integer (floating-point types: eighths; `-0` is the float -0.0), or for the
+    floating-point types `nan` (any NaN bit pattern), `inf`, `-inf` -/
+def parseFV (isFloat : Bool) (s : String) : Option FV :=
+  if s == "nan" then (if isFloat then some .nan else none)
+  else if s == "inf" then (if isFloat then some .pinf else none)
+  else if s == "-inf" then (if isFloat then some .ninf else none)
+  else if s == "-0" then some (.fin 0)
+  else s.toInt?.map .fin
+
+def fvList (isFloat : Bool) (s : String) : Option (List FV) :=
+  if s == "-" then some [] else (s.splitOn ",").mapM (parseFV isFloat)
+
+def isFloatNT : NT → Bool
+  | .f32 | .f64 => true
+  | _ => false
+
 def hexNames (s : String) : Option (List Str) :=
   if s == "-" then some [] else (s.splitOn ",").mapM hexStr
 
@@ -153,17 +169,23 @@ def stepTools (args : List String) : String :=
     | some t, some tl, some pr, some a, some b => if differs t { tl8 := tl, pr8 := pr } a b then "1" else "0"
     | _, _, _, _, _ => "bad-op"
   | ["adiff", t, tl, pr, me, l1, l2] =>
-    match parseNT t, tl.toInt?, pr.toInt?, me.toNat?, intList l1, intList l2 with
-    | some t, some tl, some pr, some me, some l1, some l2 =>
-      let r := arrayDiff t { tl8 := tl, pr8 := pr, maxErr := me } l1 l2
-      s!"{r.1} {r.2}"
-    | _, _, _, _, _, _ => "bad-op"
+    match parseNT t, tl.toInt?, pr.toInt?, me.toNat? with
+    | some t, some tl, some pr, some me =>
+      match fvList (isFloatNT t) l1, fvList (isFloatNT t) l2 with
+      | some l1, some l2 =>
+        let r := arrayDiffV t { tl8 := tl, pr8 := pr, maxErr := me } l1 l2
+        s!"{r.1} {r.2}"
+      | _, _ => "bad-op"
+    | _, _, _, _ => "bad-op"
   | ["hdiff", t, tl, pr, me, l1, l2] =>
-    match parseNT t, tl.toInt?, pr.toInt?, me.toNat?, intList l1, intList l2 with
-    | some t, some tl, some pr, some me, some l1, some l2 =>
-      let r := arrayDiff t { tl8 := tl, pr8 := pr, maxErr := me } l1 l2
-      s!"{exitCode (fun _ => r.1) [['d']] [['d']] 0 0} {r.2}"
-    | _, _, _, _, _, _ => "bad-op"
+    match parseNT t, tl.toInt?, pr.toInt?, me.toNat? with
+    | some t, some tl, some pr, some me =>
+      match fvList (isFloatNT t) l1, fvList (isFloatNT t) l2 with
+      | some l1, some l2 =>
+        let r := arrayDiffV t { tl8 := tl, pr8 := pr, maxErr := me } l1 l2
+        s!"{exitCode (fun _ => r.1) [['d']] [['d']] 0 0} {r.2}"
+      | _, _ => "bad-op"
+    | _, _, _, _ => "bad-op"
   | ["match", n1, n2] =>
     match hexNames n1, hexNames n2 with
     | some l1, some l2 =>
